@@ -262,7 +262,7 @@ def read_groups(path):
                     yield group
                 kv = dict(x.split("=") for x in line[2:].split())
                 q = kv["q"].replace("_", "")
-                group = {"q": q, "m": int(kv["m"]), "nl": kv["nl"] == "1", "paths": []}
+                group = {"q": q, "m": int(kv["m"]), "nl": kv["nl"] == "1", "paths": [], "alias": int(kv["alias"]) if "alias" in kv else None}
             elif line:
                 pc, verdict, ds = line.split(" ")
                 group["paths"].append((pc, verdict, ds))
@@ -314,8 +314,11 @@ def work(job):
     pid, n, m, shards, shard, outdir, rseed, cross = job
     path = os.path.join(outdir, "paths_%d_%d_%d.txt" % (n, m, shard))
     t0 = time.time()
+    # small lists are explored a second time with two neighbouring expectations being the very same rule (one row of the match relation)
+    env = dict(os.environ, VERIF_E3_ALIAS="1") if (2 <= n <= 3 and m <= 4) else dict(os.environ)
+    env.pop("VERIF_E3_ALIAS", None) if not (2 <= n <= 3 and m <= 4) else None
     r = subprocess.run([NATIVE_BIN, "dse", str(n), str(m), path, str(shards), str(shard)],
-                       stdout=subprocess.PIPE, stderr=subprocess.PIPE, text=True)
+                       stdout=subprocess.PIPE, stderr=subprocess.PIPE, text=True, env=env)
     if r.returncode != 0:
         return {"error": "dse failed: %s" % r.stderr[-500:]}
     native_s = time.time() - t0
@@ -360,6 +363,10 @@ def work(job):
             pc, verdict, ds = g["paths"][len(g["paths"]) // 2]
             st["samples"].append({"q": q, "m": m, "nl": nl, "cube": pc, "verdict": verdict, "diff": ds})
         text = ["(push)"]
+        if g.get("alias") is not None:
+            # expectation a is the very same rule as expectation a-1: one row of the match relation for both
+            a_ = g["alias"]
+            text += ["(assert (= %s %s))" % (var(a_, j), var(a_ - 1, j)) for j in range(m)]
         text.append("(define-fun acc () Bool %s)" % big_or(acc_terms))
         text.append("(define-fun rej () Bool %s)" % big_or(rej_terms))
         queries = [("coverage", "(assert (not (or acc rej)))")]
@@ -406,7 +413,7 @@ def work(job):
             if res == "unknown":
                 st["errors"].append("%s q=%s m=%d: unknown" % (name, q, m))
             elif res == "sat":
-                st["sat"].append({"query": name, "q": q, "m": m, "nl": nl,
+                st["sat"].append({"query": name, "q": q, "m": m, "nl": nl, "alias": g.get("alias"),
                                   "M": [[1 if x else 0 for x in row] for row in matrix_from_model(model, n, m)]})
         for s in [solver] + others:
             s.send("(pop)")
@@ -502,7 +509,7 @@ def run(pid, tier):
     for s in sats[:200]:
         q, m = s["q"], s["m"]
         M = [[bool(x) for x in row] for row in s["M"]]
-        res = native_json("replay-diff", {"q": q or "_", "m": m, "nl": s["nl"], "M": s["M"]})
+        res = native_json("replay-diff", {"q": q or "_", "m": m, "nl": s["nl"], "M": s["M"], "alias": s.get("alias")})
         replayed += 1
         if "error" in res:
             rep.mismatches.append("replay failed for %s: %s" % (json.dumps(s), res["error"]))
@@ -519,7 +526,7 @@ def run(pid, tier):
             sig = signature(pid, q, m, M, ex["verdict"], ex["diff"], why)
             rep.violation(sig, "%s: expectations q=%s, %d lines%s, match matrix %s → verdict %s diff %s"
                           % (why, q, m, "" if s["nl"] else " (no final newline)", s["M"], ex["verdict"], ex["diff"]),
-                          {"kind": "diff", "q": q or "_", "m": m, "nl": s["nl"], "M": s["M"],
+                          {"kind": "diff", "q": q or "_", "m": m, "nl": s["nl"], "M": s["M"], "alias": s.get("alias"),
                            "observed": res, "reproduced_with_builtin_regex_rules": bad_b})
         else:
             rep.mismatches.append("solver model did not reproduce natively: %s → %s" % (json.dumps(s), json.dumps(res)))
@@ -527,7 +534,8 @@ def run(pid, tier):
         "engine": "E3: dynamic symbolic execution of the compiled matcher (symbolic match relation) + z3",
         "functions_encoded": FUNCTIONS,
         "bounds": {"sizes_(n_exp,m_lines)": bounds, "quantifier_vectors": "all of {1,?,*,+}^n",
-                   "final_newline": "present and absent", "outside": "longer expectation lists / outputs"},
+                   "final_newline": "present and absent", "same_rule": "lists of 2..3 expectations × <= 4 lines also with two neighbouring expectations being the very same rule",
+                   "outside": "longer expectation lists / outputs"},
         "states": tot["paths"], "transitions": tot["decisions"],
         "traces_validated_against_impl": replayed,
         "evaluations": tot["paths"], "distinct_nontrivial": tot["paths"] - len([1 for (n, m) in bounds if n * m == 0]),
@@ -569,7 +577,7 @@ def replay(pid, path):
     wit = w["witness"]
     q = wit["q"].replace("_", "")
     M = [[bool(x) for x in row] for row in wit["M"]]
-    res = native_json("replay-diff", {"q": wit["q"], "m": wit["m"], "nl": wit["nl"], "M": wit["M"]})
+    res = native_json("replay-diff", {"q": wit["q"], "m": wit["m"], "nl": wit["nl"], "M": wit["M"], "alias": wit.get("alias")})
     if "error" in res:
         print("replay error: %s" % res)
         return 2
